@@ -52,8 +52,43 @@ def same(a, b):
     return np.allclose(a, b, rtol=1e-6, atol=1e-9, equal_nan=True)
 
 
+def run_ellscalar(it):
+    """pairs with explicit keyword sizes: scalar vs tuple vs written-out repetition"""
+    import einx
+    findings, calls = [], 0
+    rng = np.random.default_rng(it["seed"])
+    for p in it["pairs"]:
+        shape = tuple(p["shape"])
+        x = rng.permutation(int(np.prod(shape))).reshape(shape).astype(np.int64)
+        ks, kl = p["kwshort"], p["kwlong"]
+        tail = "d" in p["short"]
+        kw_s = {"c": int(ks["c"][0])}
+        if p["kind"] == "ellipsis_scalar_vs_tuple":
+            kw_l = {"c": tuple(int(v) for v in kl["c"])}
+        else:
+            kw_l = {n: int(v) for n, v in zip(p["names"], kl["c"])}
+        if tail:
+            kw_s["d"] = int(ks["d"][0])
+            kw_l["d"] = int(kl["d"][0])
+        for backend in DC.BACKENDS:
+            with warnings.catch_warnings():
+                warnings.simplefilter("ignore")
+                k1, r1 = outcome(lambda: einx.id("".join(p["short"]), x.copy(), backend=backend, **kw_s))
+                k2, r2 = outcome(lambda: einx.id("".join(p["long"]), x.copy(), backend=backend, **kw_l))
+            calls += 2
+            if k1 != k2:
+                findings.append({"op": "id", "backend": backend, "rule": p["kind"], "kind": "different-outcome",
+                                 "detail": "%r %s -> %s %s but %r %s -> %s %s" % ("".join(p["short"]), kw_s, k1, r1 if k1 != "ok" else "", "".join(p["long"]), kw_l, k2, r2 if k2 != "ok" else "")})
+            elif k1 == "ok" and not same(r1[0], r2[0]):
+                findings.append({"op": "id", "backend": backend, "rule": p["kind"], "kind": "different-result",
+                                 "detail": "%r %s and %r %s give different results" % ("".join(p["short"]), kw_s, "".join(p["long"]), kw_l)})
+    return findings, calls
+
+
 def run_item(it):
     base, pairs, ops, seed = it["base"], it["pairs"], it["ops"], it["seed"]
+    if base["fam"] == "ellscalar":
+        return run_ellscalar(it)
     findings = []
     calls = 0
     rng = np.random.default_rng(seed)
@@ -113,11 +148,13 @@ def run(tier):
     specs = corpus.quick_specs() if tier == "quick" else corpus.thorough_specs()
     if tier == "quick":
         specs = [s for s in specs if s[0] != "update_at"] + [("update_at", ["a"], corpus.LENS_QUICK[:1], 2, 3)]
+    specs.append(("ellscalar", ["a"], [corpus.LENS_QUICK[0]], 1, 1))
     recs = corpus.generate(rep, specs, mode="short", timeout=1500 if tier == "quick" else 3000)
     rep.exhaustive = True
     if tier == "quick":
         keep = {"elementwise": 8, "get_at": 6, "id": 4, "update_at": 3, "preserve": 2, "argfind": 3}
         recs = [r for i, r in enumerate(recs) if i % keep.get(r["base"]["fam"], 1) == 0]
+    OPS["ellscalar"] = ["id"]
     items = [{"base": r["base"], "pairs": r["pairs"], "ops": OPS[r["base"]["fam"]] if tier == "thorough" else [OPS[r["base"]["fam"]][i % len(OPS[r["base"]["fam"]])]],
               "seed": common.seed() * 15485863 + i} for i, r in enumerate(recs)]
     results = common.parallel_map("run_chunk", sys.modules[__name__], items)
@@ -128,14 +165,15 @@ def run(tier):
         for p in it["pairs"]:
             rules[p["kind"]] = rules.get(p["kind"], 0) + 1
             if p["kind"] != "spaces":
-                rep.nontriv(p["kind"] + "".join(p["short"]) + "|" + "".join(p["long"]) + json.dumps(it["base"]["L"], sort_keys=True))
+                rep.nontriv(p["kind"] + "".join(p["short"]) + "|" + "".join(p["long"]) + json.dumps(it["base"].get("L", it["base"]), sort_keys=True))
         for f in r["findings"]:
             if f["kind"] == "machinery":
                 raise common.MachineryError(f["detail"])
+            lens = {k: v for k, v in it["base"]["L"].items() if k in set(it["base"]["desc"])} if "L" in it["base"] else {}
             rep.violation({"kind": f["kind"], "rule": f["rule"], "op": f["op"], "backend": f["backend"], "fam": it["base"]["fam"]},
-                          {"item": it}, "einx.%s backend=%s rule=%s lengths=%s: %s" % (f["op"], f["backend"], f["rule"], {k: v for k, v in it["base"]["L"].items() if k in set(it["base"]["desc"])}, f["detail"]))
+                          {"item": it}, "einx.%s backend=%s rule=%s lengths=%s: %s" % (f["op"], f["backend"], f["rule"], lens, f["detail"]))
     rep.extra["pairs_per_rule"] = rules
-    for it in items[:: max(1, len(items) // 4)][:4]:
+    for it in [i for i in items if "desc" in i["base"]][:: max(1, len(items) // 4)][:4]:
         rep.sample({"long": "".join(it["base"]["desc"]), "pairs": [[p["kind"], "".join(p["short"]), "".join(p["long"]), p["kw"]] for p in it["pairs"]][:5]})
     return rep.finish()
 
